@@ -17,12 +17,14 @@ theorem c06_on_source (max : Nat) (cores : List Nat) (sched : List Nat) (s : St)
 
 
 
+
 -- BEGIN PINS (written by bin/mkpins; do not edit by hand)
 /-- the Go functions this property's model and obligations were written against have exactly the
 pinned skeletons (SHA-256 prefix of the atom list) -/
 theorem pinned_skeletons_c06 :
     pinsOk
-    [("Scipipe.FinalizePaths", "291fc0cefa37cea9"),
+    [("Scipipe.#decls", "7633eb8a74616d59"),
+     ("Scipipe.FinalizePaths", "291fc0cefa37cea9"),
      ("Scipipe.Task_Execute", "40fd1fec0c69deb2"),
      ("Scipipe.Task_anyOutputsExist", "0609a842b7aaf7a8"),
      ("Scipipe.Task_executeCommand", "98e77d849c0638cb"),
